@@ -67,6 +67,11 @@ using namespace cds_utils;
 #include "utils/LogSequence.h"
 
 #define MEMALLOC 32768
+#if defined(LIBCSD_VERIF) && defined(LIBCSD_VERIF_MEMALLOC)
+// verification hook: reach the buffer-growth paths with small inputs
+#undef MEMALLOC
+#define MEMALLOC LIBCSD_VERIF_MEMALLOC
+#endif
 
 class StringDictionaryRPFC : public StringDictionary {
 public:
